@@ -426,6 +426,32 @@ func oracleC07(run *mon.Run, s *sim.Sim, tierT bool, r *rand.Rand) {
 			}
 		}
 	}
+	// (viii, Joint-Feldman) the documented outcome of End: a DKG failure exactly when more than t dealers were
+	// disqualified (or fewer than t+1 remain); with at most t Byzantine participants and nobody else ever
+	// disqualified, a node that reported at most t disqualifications ends with keys
+	if s.Sc.Proto == sim.JF {
+		for _, h := range hs {
+			if !h.Ended {
+				continue
+			}
+			nd := 0
+			for d := 0; d < s.Sc.N; d++ {
+				if h.Disq[d] {
+					nd++
+				}
+			}
+			mustFail := nd > s.Sc.T || s.Sc.N-nd <= s.Sc.T
+			run.Count(fmt.Sprintf("jf.end-vs-disqualified.%v", mustFail), 1)
+			if mustFail && h.EndErr == nil {
+				run.Violate(id+":keys-despite-too-many-disqualified", fmt.Sprintf("honest node %d reported %d disqualified dealers (t=%d, n=%d) and End() still returned keys", h.ID, nd, s.Sc.T, s.Sc.N), rep)
+				return
+			}
+			if !mustFail && h.EndErr != nil {
+				run.Violate(id+":failure-with-few-disqualified", fmt.Sprintf("honest node %d reported only %d disqualified dealers (t=%d, n=%d; a failure is documented for more than t) and End() returned %v", h.ID, nd, s.Sc.T, s.Sc.N, h.EndErr), rep)
+				return
+			}
+		}
+	}
 	if cls != "ok" {
 		return
 	}
